@@ -355,6 +355,11 @@ func (it *Iterator) skipRetreatToMatch() {
 			it.setEof()
 			return
 		}
+		if !it.noRange && prefix == it.skipGroup && prefix >= it.rng.End {
+			// handles the initial skipGroup="" colliding with an out-of-range empty prefix
+			it.skipSeekPrevGroup(prefix)
+			continue
+		}
 		if prefix != it.skipGroup {
 			it.skipGroup = prefix
 			if !it.noRange && prefix >= it.rng.End {
